@@ -63,8 +63,10 @@ print("| id | E (explored space) | O | quick | thorough |")
 print("|----|--------------------|---|-------|----------|")
 for cid in sorted(E):
     e, o = E[cid]
-    qs = f"{fmt(q[cid]['ev'])} / {q[cid]['wall']:.0f} s" if cid in q else "-"
-    ts = f"{fmt(t[cid]['ev'])} / {t[cid]['wall']:.0f} s" if cid in t else "-"
+    # (C11 builds a handful of projects and judges every link instance on every page: the transitions)
+    k, unit = ("trans", " link instances") if cid == "C11" else ("ev", "")
+    qs = f"{fmt(q[cid][k])}{unit} / {q[cid]['wall']:.0f} s" if cid in q else "-"
+    ts = f"{fmt(t[cid][k])}{unit} / {t[cid]['wall']:.0f} s" if cid in t else "-"
     print(f"| {cid} | {e} | {o} | {qs} | {ts} |")
 print()
 print(f"Sum of wall times: quick {sum(v['wall'] for v in q.values()):.0f} s, thorough {sum(v['wall'] for v in t.values()):.0f} s.")
